@@ -32,6 +32,7 @@ class Ctx(object):
         self.seed = seed
         self.t0 = time.time()
         self.rules = {}          # rule -> dict(instances, failed, floor, what)
+        self.broken_rules = []   # (rule, reason) of rules that could not recognise their anchors
         self.constructs = set()  # distinct (rule, function, key)
         self.samples = []
         self.findings = []
@@ -146,6 +147,10 @@ def finish(ctx, explanation, decides, not_decided, exhaustive=False, extra=None)
         seen.add(f.ident())
         print('KNOWN-FINDING: property=%s %s [%s in %s at %s]' % (f.prop, k.get('what', f.msg), f.rule,
                                                                   f.function, f.loc))
+    if ctx.broken_rules and not new:
+        raise AnalysisBroken(ctx.broken_rules[0][0], ctx.broken_rules[0][1])
+    for br in ctx.broken_rules:
+        ctx.notes.append('rule %s could not be evaluated (%s); reported violations come from the other rules' % br)
     if floor_problem is not None and not new:
         # nothing was found, but a rule saw (much) less code than it was frozen on: that is not a pass
         raise AnalysisBroken(floor_problem[0], floor_problem[1])
